@@ -57,6 +57,14 @@ class Holder:
         new_dict["population"] = population
         new_dict["simulation"] = population.simulation
 
+        # The stores are mutable: the copy needs its own.
+        new_dict["_memory_storage"] = self._memory_storage.clone()
+
+        if self._disk_storage is not None:
+            new_dict["_disk_storage"] = new.create_disk_storage()
+            for period in self._disk_storage.get_known_periods():
+                new._disk_storage.put(self._disk_storage.get(period), period)
+
         return new
 
     def create_disk_storage(self, directory=None, preserve=False):
